@@ -358,9 +358,12 @@ pub fn break_lines(lines: &[Line], ch: &mut Ch) -> Option<Broken> {
             out[li].toks.remove(ti);
         }
         EditKind::AddEntry => {
-            let extra = match ch.upto(3) {
+            let extra = match ch.upto(6) {
                 0 => raw("0"),
                 1 => raw("X"),
+                2 => raw("C"),
+                3 => raw("Z"),
+                4 => raw("c"),
                 _ => raw("1"),
             };
             out[li].toks.push(extra);
